@@ -86,6 +86,13 @@ def check_state(ctx, fam, est, expect_len, desc, where):
                 ctx.issue("violation", f"{tag}:counter-total", f"{where}: sum(counters)={sum(cnt)} presented={expect_len}", rep)
 
 
+def prepare(ctx):
+    """Translator tie (see gen_tie.py): the statements of BaseART.step_fit are regenerated from the source and the
+    theorems about the generated definition are re-checked"""
+    from .gen_tie import gen_prepare
+    gen_prepare(ctx, ['Control.step_fit_refines', 'Control.step_fit_counts'], "BaseART.step_fit (translated control flow): sample counter and per-category counters")
+
+
 def run(ctx):
     cov = ctx.cov
     N = ctx.scale(360, 6000)
